@@ -741,9 +741,70 @@ fn definition_probe(ctx: &Ctx, rng: &mut Rng, st: &mut St) {
     }
 }
 
+/// A function whose only parameter is an array is compiled with one party per element: the number of
+/// parties follows the constants however the size is spelled (`N`, `const { N + 1usize }`, ..), exactly
+/// as in the substituted program.
+fn sole_array_probe(ctx: &Ctx, rng: &mut Rng, st: &mut St) {
+    let n = rng.usize_below(4);
+    let (spelling, size): (String, usize) = match rng.below(6) {
+        0 => ("N".into(), n),
+        1 => ("const { N }".into(), n),
+        2 => ("const { N + 1usize }".into(), n + 1),
+        3 => ("const { 2usize + N - 1usize }".into(), n + 1),
+        4 => ("const { max(N, 1usize) }".into(), n.max(1)),
+        _ => ("const { N + N }".into(), 2 * n),
+    };
+    let (elem, elem_plain, elem_bits): (String, String, usize) = match rng.below(4) {
+        0 => ("u8".into(), "u8".into(), 8),
+        1 => ("bool".into(), "bool".into(), 1),
+        2 => ("(u16, bool)".into(), "(u16, bool)".into(), 17),
+        _ => ("[u8; N]".into(), format!("[u8; {n}]"), 8 * n),
+    };
+    if size == 0 || elem_bits == 0 {
+        st.counts.inc("sole array probe: no input bits (skipped)");
+        return;
+    }
+    let with_text = format!("const N: usize = PARTY_0::N;\npub fn main(a: [{elem}; {spelling}]) -> [{elem}; {spelling}] {{\n    a\n}}\n");
+    let sub_text = format!("pub fn main(a: [{elem_plain}; {size}]) -> [{elem_plain}; {size}] {{\n    a\n}}\n");
+    let case = json!({"program": with_text, "N": n, "substituted_program": sub_text});
+    let mut consts: garble_lang::GarbleConsts = HashMap::new();
+    consts.entry("PARTY_0".into()).or_default().insert("N".into(), Literal::NumUnsigned(n as u64, UnsignedNumType::Usize));
+    let a = catch(|| garble_lang::compile_with_constants(&with_text, consts));
+    let b = catch(|| garble_lang::compile(&sub_text));
+    match (a, b) {
+        (Ok(Ok(a)), Ok(Ok(b))) => {
+            st.counts.inc("sole array probe: party sizes compared");
+            let want = vec![elem_bits; size];
+            let (ga, gb) = (gl::ssa(&a).input_gates.clone(), gl::ssa(&b).input_gates.clone());
+            if ga != gb || ga != want {
+                let mut case = case;
+                case["parties_with_constants"] = json!(ga);
+                case["parties_substituted"] = json!(gb);
+                case["one_party_per_element"] = json!(want);
+                ctx.violation("sole array probe: the parties of a function whose only parameter is a const-sized array do not follow the constants (or differ from the substituted program)", case);
+            }
+        }
+        (Ok(Err(_)), Ok(Err(_))) => st.counts.inc("sole array probe: both rejected"),
+        (a, b) => {
+            let show = |r: &Result<Result<garble_lang::GarbleProgram, garble_lang::Error>, String>| match r {
+                Ok(Ok(_)) => "compiled".to_string(),
+                Ok(Err(e)) => format!("rejected: {}", format!("{e:?}").chars().take(300).collect::<String>()),
+                Err(p) => format!("panicked: {p}"),
+            };
+            let mut case = case;
+            case["with_constants"] = json!(show(&a));
+            case["substituted"] = json!(show(&b));
+            ctx.violation("sole array probe: the program with constants and the substituted program are not treated alike", case);
+        }
+    }
+}
+
 fn one_case(ctx: &Ctx, rng: &mut Rng, st: &mut St) {
     if rng.chance(1, 10) {
         output_probe(ctx, rng, st);
+    }
+    if rng.chance(1, 10) {
+        sole_array_probe(ctx, rng, st);
     }
     if rng.chance(1, 6) {
         definition_probe(ctx, rng, st);
